@@ -53,7 +53,7 @@ func c09alphabet() []c09op {
 		{"reply", 1}, {"reply", 2}, {"reply", 3}, {"err", 1}, {"unk", 0},
 		{"cancel", 1}, {"cancel", 2}, {"tmo", 0},
 		{"call", 0}, {"rel", 0}, {"stop", 0},
-		{"cbfail", 1}, {"burst", 0}, {"replyall", 0},
+		{"cbfail", 1}, {"burst", 0}, {"replyall", 0}, {"respell", 1},
 	}
 }
 
@@ -393,6 +393,13 @@ func (w *c09world) apply(op c09op) {
 				in.outcome = []string{"jerr:-5:" + tok}
 			}
 		}
+	case "respell":
+		// a reply whose id denotes the same number as an outstanding callback's id in another
+		// spelling (1.0, 1e0): ids are compared as texts, it bears no outstanding id and
+		// completes nothing
+		if in := w.slots[op.slot]; in != nil && in.wireID != "" {
+			rig.Send(fmt.Sprintf(`[{"jsonrpc":"2.0","id":%s.0,"result":%q},{"jsonrpc":"2.0","id":%se0,"error":{"code":-5,"message":"x"}}]`, in.wireID, w.token(), in.wireID))
+		}
 	case "replyall":
 		// one batch record answering every outstanding callback, replies side by side, with
 		// a reply nobody waits for at either end
@@ -638,7 +645,7 @@ func c09cases(e vt.Env, yield func(vt.Case) bool) {
 		}
 	}
 	// S: every history up to length 4 over a small alphabet around a Callback whose send failed
-	small := []c09op{{"cbfail", 1}, {"cb", 2}, {"cb", 1}, {"cancel", 1}, {"reply", 2}, {"reply", 1}, {"burst", 0}, {"replyall", 0}}
+	small := []c09op{{"cbfail", 1}, {"cb", 2}, {"cb", 1}, {"cancel", 1}, {"reply", 2}, {"reply", 1}, {"burst", 0}, {"replyall", 0}, {"respell", 1}}
 	for a := range small {
 		a := a
 		id := fmt.Sprintf("S/%s *", small[a])
